@@ -7,7 +7,10 @@ patch="$1"; shift
 cd /verif
 if [ -n "$(git -C /repo status --porcelain)" ]; then echo "refusing: /repo working tree is not clean"; exit 2; fi
 git -C /repo apply "$patch" || { echo "patch does not apply"; exit 2; }
-trap 'git -C /repo checkout -- . ; git -C /repo status --porcelain' EXIT
+# evidence written while a seeded change is applied describes the modified tree: keep the clean-tree records aside and
+# put them back afterwards (the replay files of the seeded run stay under evidence/replay until removed)
+keep=$(mktemp -d /verif/.build/evidence-keep.XXXXXX); cp /verif/evidence/*.json "$keep"/ 2>/dev/null
+trap 'git -C /repo checkout -- . ; git -C /repo status --porcelain; cp "$keep"/*.json /verif/evidence/ 2>/dev/null; rm -rf "$keep"' EXIT
 tier="${SEED_TIER:-quick}"
 for id in "$@"; do
   out=$(./vcheck check "$id" --tier "$tier" 2>&1); rc=$?
